@@ -358,21 +358,31 @@ func run(c Case) vt.Verdict {
 		expected[s] = w
 	}
 	// wait until every expected delivery has happened
-	ok := cl.Log.WaitFor(scen.B, func(evs []scen.Event) bool {
-		got := map[int]bool{}
-		for _, e := range evs {
-			if e.Kind == "enter" && e.Token == tok {
-				got[e.Server] = true
+	delivered := make(chan struct{})
+	go func() {
+		if cl.Log.WaitFor(3*scen.B, func(evs []scen.Event) bool {
+			got := map[int]bool{}
+			for _, e := range evs {
+				if e.Kind == "enter" && e.Token == tok {
+					got[e.Server] = true
+				}
 			}
-		}
-		for s := range expected {
-			if !got[s] {
-				return false
+			for s := range expected {
+				if !got[s] {
+					return false
+				}
 			}
+			return true
+		}) {
+			close(delivered)
 		}
-		return true
-	})
-	if !ok {
+	}()
+	// the hang rule: not within B, re-examined after another B, with the library goroutines that stayed put
+	dr, dsig := scen.Await(delivered, scen.B)
+	if dr == scen.Late {
+		return vt.Verdict{OK: true, Inconclusive: true, Msg: "deliveries completed late"}
+	}
+	if dr == scen.Hung {
 		var missing []int
 		got := map[int]bool{}
 		for _, e := range cl.Log.Snapshot() {
@@ -386,8 +396,11 @@ func run(c Case) vt.Verdict {
 			}
 		}
 		sort.Ints(missing)
+		for _, n := range client.Configs[0].Nodes() {
+			dsig += fmt.Sprintf(" [node %d (server %d) last error: %v]", n.ID(), client.ServerOf(n.ID()), n.LastErr())
+		}
 		return vt.Verdict{OK: false, Key: k("not-delivered"), History: cl.Log.Snapshot(),
-			Msg: fmt.Sprintf("%s: servers %v never received the message within %v (reachable, context live)", kind, missing, scen.B)}
+			Msg: fmt.Sprintf("%s: servers %v never received the message within 2x%v (reachable, context live); library goroutines that stayed put: %s", kind, missing, scen.B, dsig)}
 	}
 	// let the handlers answer; two-way calls must complete by the answers of the non-skipped nodes alone
 	cl.OpenAll()
